@@ -1448,12 +1448,26 @@ package gogu
 //@   invariant forall k int :: { res[k] } 0 <= k && k < i ==> res[k] == strrunes(str)[len(res) - 1 - k] && res[len(res) - 1 - k] == strrunes(str)[k]
 //@   invariant forall k int :: { res[k] } i <= k && k <= j ==> res[k] == strrunes(str)[k]
 
+// WrapAllRune, exact text: rp[k] is the byte offset of the k-th rune of str (runeWalk), acc[k] the text produced for
+// the first k runes: acc[0] is empty, acc[k+1] = acc[k] + token + rune k + token, and the result is acc[n].
 //@ func gogu.WrapAllRune
 //@   property C15 C16
+//@   ghost rp map[int]int
+//@   ghost acc map[int]string = lambda k int :: ""
+//@   ghost n int = 0
+//@   ensures n >= 0 && runeWalk(str, rp, n) && result == acc[n] && acc[0] == ""
+//@   ensures forall k int :: { acc[k + 1] } 0 <= k && k < n ==> acc[k + 1] == acc[k] + token + runeenc(runeat(str, rp[k])) + token
 //@   ensures len(str) == 0 ==> result == ""
 //@   ensures len(str) > 0 ==> len(result) >= 2 * len(token) + 1
 //@ loop 1
-//@   invariant 0 <= $pos && $pos <= len(str) && ($pos == 0 ==> builder(s) == "") && ($pos > 0 ==> len(builder(s)) >= 2 * len(token) + 1)
+//@   invariant 0 <= $pos && $pos <= len(str) && n >= 0 && (n == 0 <==> $pos == 0) && builder(s) == acc[n] && acc[0] == ""
+//@   invariant n > 0 ==> rp[0] == 0 && rp[n - 1] + runew(str, rp[n - 1]) == $pos && len(builder(s)) >= 2 * len(token) + 1
+//@   invariant forall k int :: { rp[k] } 0 <= k && k < n - 1 ==> rp[k + 1] == rp[k] + runew(str, rp[k])
+//@   invariant forall k int :: { rp[k] } 0 <= k && k < n ==> 0 <= rp[k] && rp[k] < len(str)
+//@   invariant forall k int :: { acc[k + 1] } 0 <= k && k < n ==> acc[k + 1] == acc[k] + token + runeenc(runeat(str, rp[k])) + token
+//@   ghost rp[n] = $key
+//@   ghost acc[n + 1] = builder(s)
+//@   ghost n = n + 1
 
 // ---------------------------------------------------------------- C20: delay, debounce, throttle (safety clauses)
 
